@@ -40,12 +40,16 @@ def hygiene_grep():
 def lean_check(pid, spec, log, tier="quick"):
     """build the property module and audit the axioms of every property theorem.
     returns (obligations, discharged, failures[list of str])"""
-    theorems = spec["theorems"]
+    theorems = list(spec["theorems"])
+    mods = [spec["module"]] + spec.get("extra_modules", [])
+    if tier == "thorough":
+        # theorems whose proofs reach further into the translated code than the quick tier wants to depend on
+        theorems += [t for t in spec.get("thorough_theorems", []) if t not in theorems]
+        mods += [m for m in spec.get("thorough_modules", []) if m not in mods]
     failures = []
     with Lock("lake"):
-        rc, out = sh(["lake", "build", spec["module"], "driver"] + spec.get("extra_modules", []), cwd=LEAN)
+        rc, out = sh(["lake", "build", "driver"] + mods, cwd=LEAN)
     log.append(out[-3000:])
-    mods = [spec["module"]] + spec.get("extra_modules", [])
     if rc != 0:
         # one module that no longer builds must not keep the others from being built: build them one by one
         for mod in mods:
@@ -312,8 +316,8 @@ def write_evidence(pid, tier, seed, spec, t0, obligations, discharged, stats, vi
             "obligations": obligations, "discharged": discharged,
             "checker_cmd": "cd /verif/lean && lake build %s && lake env lean /verif/build/audit/%s.lean   (#print axioms of every listed theorem)%s" % (spec["module"], pid, "; lake env leanchecker <each property module>" if tier == "thorough" else ""),
             "trusted_base": TRUSTED_BASE + spec.get("trusted", []),
-            "theorems": spec["theorems"],
-            "axioms": {t: LAST_AXIOMS.get(t) for t in spec["theorems"]},
+            "theorems": spec["theorems"] + ([x for x in spec.get("thorough_theorems", []) if x not in spec["theorems"]] if tier == "thorough" else []),
+            "axioms": {t: LAST_AXIOMS.get(t) for t in spec["theorems"] + (spec.get("thorough_theorems", []) if tier == "thorough" else [])},
             "statement": spec.get("statement", ""),
             "partial": spec.get("partial", ""),
             "evaluations": evals,
